@@ -131,9 +131,27 @@ def _second_opinion(mod, prop, a, seed, run, out, err):
             bad2 = {(v["rule"], v["key"]) for v in v2} | {(v["rule"], qual(v["where"])) for v in v2}
             # a finding located in a helper stands when the normal form shows a finding of the same rule in any function
             # that received the helper's statements
+            # the normal form must not have lost sight of anything: the rule evaluates at least as many instances as on the
+            # source as written everywhere outside the functions whose statements were moved (F, what F was inlined into,
+            # what was inlined into those), and still evaluates something inside them
+            def family(q):
+                fam = related(q)
+                for h in into:
+                    if related(h) & fam:
+                        fam |= related(h)
+                return fam
+
+            def covered(v):
+                fam = family(qual(v["where"]))
+                a_out = sum(1 for i in run.instances if i["rule"] == v["rule"] and qual(i["where"]) not in fam)
+                b_out = sum(1 for i in r2.instances if i["rule"] == v["rule"] and qual(i["where"]) not in fam)
+                a_in = sum(1 for i in run.instances if i["rule"] == v["rule"] and qual(i["where"]) in fam)
+                b_in = sum(1 for i in r2.instances if i["rule"] == v["rule"] and qual(i["where"]) in fam)
+                return b_out >= a_out and (b_in > 0 or a_in == 0)
+
             dropped = [v for v in run.violations if (v["rule"], v["key"]) not in bad2
                        and not any((v["rule"], q) in bad2 for q in related(qual(v["where"])))
-                       and n2.get(v["rule"], 0) >= n1.get(v["rule"], 0)]
+                       and (n2.get(v["rule"], 0) >= n1.get(v["rule"], 0) or covered(v))]
             cleared = sorted({v["rule"] for v in dropped})
             if cleared:
                 run.violations = [v for v in run.violations if v not in dropped]
